@@ -12,8 +12,8 @@ META = {
     "note": "Trusted: TLC, Go toolchain, reflect.StructOf, math/big and time for concretisation. Outside the documented domain and not generated: tagged RawValue fields (Marshal ignores their parameters), implicitly tagged GeneralizedTime / non-printable strings without a string-type parameter, non-optional Flag, omitempty without optional, optional *big.Int, RawContent, BMPString / T61String / GeneralString (decode only). Time values carry whole seconds only.",
 }
 
-QUICK = dict(MENUS='{"small","large"}', S_FIELDS=3, L_FIELDS=1)
-THOROUGH = [dict(MENUS='{"small"}', S_FIELDS=4, L_FIELDS=0), dict(MENUS='{"large"}', S_FIELDS=0, L_FIELDS=2)]
+QUICK = dict(MENUS='{"small","large"}', S_FIELDS=2, L_FIELDS=1)
+THOROUGH = [dict(MENUS='{"small"}', S_FIELDS=3, L_FIELDS=0), dict(MENUS='{"large"}', S_FIELDS=0, L_FIELDS=2)]
 
 
 def run(ctx):
@@ -37,7 +37,7 @@ def run(ctx):
         nontriv += st.get("nontrivial", 0)
         with open(path) as f:
             for i, line in enumerate(f):
-                if i == 777:
+                if i == 333:
                     ctx.add_samples([json.loads(line)], n=2)
     ctx.cov["evaluations"] += total
     ctx.cov["distinct_nontrivial"] += nontriv
@@ -47,6 +47,7 @@ def run(ctx):
                        "documented domain (a TLC state each); non-trivial = some field carries parameters or is composite; plus "
                        "seeded random deeper types judged by TLC")
     ctx.candidates(binary, cands)
+    verdicted = {json.dumps(c["sig"], sort_keys=True) for c in cands}
 
     nrec = 400 if ctx.quick else 6000
     out = ctx.path("asn1_rec.ndjson")
@@ -59,8 +60,12 @@ def run(ctx):
     tc = []
     for i, stage in rejected:
         r = recs[i - 1]
-        kinds = sorted({f[0] + ":" + params_text(f[1]) for f in r["t"][2]})
-        tc.append({"sig": {"stage": stage, "judged": "trace", "fields": " | ".join(kinds)},
+        # same signature shape as the harness gives to disagreements on generated cases
+        sig = {"stage": stage, "error": r.get("errmsg", "") if stage.endswith("-error") else "",
+               "explicit_private": r.get("explicit_private", False)}
+        if json.dumps(sig, sort_keys=True) in verdicted:
+            continue
+        tc.append({"sig": sig,
                    "what": "TLC (Trace_ASN1Marshal) rejects the recorded case at stage %s: type %s value %s" %
                            (stage, json.dumps(r["t"])[:500], json.dumps(r["v"])[:300]),
                    "case": {"t": r["t"], "v": r["v"], "obs": True}})
